@@ -134,6 +134,11 @@ CHECK = {
     "assumptions": ["zones hold RDATA that is valid for its type wherever the server copies it into a response, and no OPT/TSIG records (both are what zone loading enforces: Rdata::validate, OptNotAllowed/TsigNotAllowed)"],
 }
 
+# ---- fourth suite: CORRECTLY SIGNED requests, both transports (checks/siggen.py); decided by wf_response alone
+import siggen
+CHECK["suites"].append(dict(siggen.suite(siggen.oracle_c02),
+                            gen=lambda rng, tier: siggen.gen(rng, tier, *((500, 5, 120) if tier == "quick" else (15000, 100, 3000)))))
+
 MANIFEST = {
     "level_text": ("Theorem c02_wellformed (Coq, no axioms): for every request, transport, EDNS size, key set and every catalog whose "
                    "Loaded entries are zones built by Zone::add over records whose RDATA is valid for its type (hypothesis "
